@@ -15,9 +15,12 @@ enum Outcome { Password, Opened, OtherError(String), Panic(String) }
 
 fn open(reader: &str, bytes: &[u8]) -> Outcome {
     let b = bytes.to_vec();
+    // zip-based readers take a reader wherever the caller left it ("xlsx@8": after sniffing the magic bytes, "xlsx@end": after measuring the length)
+    let (reader, at) = match reader.split_once('@') { Some((r, "8")) => (r, 8u64.min(b.len() as u64)), Some((r, _)) => (r, b.len() as u64), None => (reader, 0) };
+    let cur = |v: Vec<u8>| { let mut c = Cursor::new(v); c.set_position(at); c };
     let r = guarded(|| match reader {
-        "xlsx" => match Xlsx::new(Cursor::new(b.clone())) { Ok(_) => Outcome::Opened, Err(XlsxError::Password) => Outcome::Password, Err(e) => Outcome::OtherError(format!("{e:?}")) },
-        "xlsb" => match Xlsb::new(Cursor::new(b.clone())) { Ok(_) => Outcome::Opened, Err(XlsbError::Password) => Outcome::Password, Err(e) => Outcome::OtherError(format!("{e:?}")) },
+        "xlsx" => match Xlsx::new(cur(b.clone())) { Ok(_) => Outcome::Opened, Err(XlsxError::Password) => Outcome::Password, Err(e) => Outcome::OtherError(format!("{e:?}")) },
+        "xlsb" => match Xlsb::new(cur(b.clone())) { Ok(_) => Outcome::Opened, Err(XlsbError::Password) => Outcome::Password, Err(e) => Outcome::OtherError(format!("{e:?}")) },
         "xls" => match Xls::new(Cursor::new(b.clone())) { Ok(_) => Outcome::Opened, Err(XlsError::Password) => Outcome::Password, Err(e) => Outcome::OtherError(format!("{e:?}")) },
         _ => match Ods::new(Cursor::new(b.clone())) { Ok(_) => Outcome::Opened, Err(OdsError::Password) => Outcome::Password, Err(e) => Outcome::OtherError(format!("{e:?}")) },
     });
@@ -50,7 +53,7 @@ fn layout(ch: &mut Chooser) -> cfb::Layout {
 fn build(ch: &mut Chooser, family: &str) -> (&'static str, Vec<u8>, String, bool) {
     match family {
         "ooxml" => {
-            let reader: &'static str = if ch.flag("open-with-xlsb") { "xlsb" } else { "xlsx" };
+            let reader: &'static str = if ch.flag("open-with-xlsb") { ch.pick("reader-position-at-open", &["xlsb", "xlsb@8", "xlsb@end"]) } else { ch.pick("reader-position-at-open", &["xlsx", "xlsx@8", "xlsx@end"]) };
             let size = ch.pick("encrypted-package-size", &[5000usize, 8, 4095, 4096, 4097, 70000]);
             let info = ch.choose("encryption-info", 4); // standard, agile, agile > 4096 bytes, absent
             let dataspaces = !ch.flag("no-dataspaces-storage");
@@ -138,7 +141,8 @@ fn build(ch: &mut Chooser, family: &str) -> (&'static str, Vec<u8>, String, bool
                 }
                 _ => ods::write(&ods::OBook { sheets: vec![ods::OSheet { name: "S".into(), rows: vec![ods::ORow { cells: vec![(ods::OCell::new(ods::OVal::StrContent("encryption-data".into(), ods::SpaceMode::TextS, false)), 1)], repeat: 1 }], display: None }], extra_manifest_entries: ch.choose("manifest-extra-entries", 3), ..Default::default() }, if ch.flag("zip-stored") { Method::Stored } else { Method::Deflated }),
             };
-            (fmt, bytes, format!("unencrypted {fmt}"), false)
+            let reader: &'static str = match fmt { "xlsx" => ch.pick("reader-position-at-open", &["xlsx", "xlsx@8", "xlsx@end"]), "xlsb" => ch.pick("reader-position-at-open", &["xlsb", "xlsb@8", "xlsb@end"]), f => f };
+            (reader, bytes, format!("unencrypted {reader}"), false)
         }
     }
 }
@@ -147,7 +151,7 @@ fn run_case(rep: &Report, ch: &mut Chooser, family: &str, local: &mut Vec<(u64, 
     let (reader, bytes, desc, must) = build(ch, family);
     rep.eval(1);
     let out = open(reader, &bytes);
-    let replay = || Replay { json: json!({"family": family, "choices": ch.choices(), "case": desc, "reader": reader}), files: vec![(reader.to_string(), bytes.clone())] };
+    let replay = || Replay { json: json!({"family": family, "choices": ch.choices(), "case": desc, "reader": reader}), files: vec![(reader.split('@').next().unwrap().to_string(), bytes.clone())] };
     match (&out, must) {
         (Outcome::Password, true) | (Outcome::Opened, false) => {}
         (Outcome::Panic(p), _) => { let site = normalise_site(p.rsplit(" @ ").next().unwrap_or("")); rep.fail(&format!("{family}/panic/{site}"), &format!("panicked: {p} [{desc}]"), replay); }
@@ -186,7 +190,7 @@ fn huge_package(rep: &Report) {
 pub fn check(rep: &Report) {
     let t = crate::thorough(&rep.tier);
     huge_package(rep);
-    rep.rule("encrypted OOXML: EncryptedPackage of {8, 4095, 4096, 4097, 5000, 70000} bytes x EncryptionInfo {standard, agile, agile > 4096 bytes, absent} x DataSpaces storage present/absent x CFB layouts (v3/v4, 5 sector orders, mini order, unused entries, directory order, free sectors), opened with Xlsx and Xlsb; BIFF: FILEPASS of 5 kinds (BIFF8 RC4, XOR obfuscation, CryptoAPI v2/v4; the 4-byte BIFF5 XOR form in a Book stream) directly after BOF or after WRITEPROTECT, record bodies garbled, mini stream or regular sectors, CFB layouts; ods: manifests with 3-5 entries and encryption-data on the first, a middle, the last, all or several entries, ciphertext content; converse: unencrypted workbooks of all four formats (xlsx under every encoding of C01, xls under CFB layouts with extra streams, names and strings that spell 'EncryptedPackage' / 'FILEPASS' / 'encryption-data') must open; full product for ods and plain, <= 3 (thorough: full product) deviations for ooxml and biff; non-trivial = non-default choice");
+    rep.rule("encrypted OOXML: EncryptedPackage of {8, 4095, 4096, 4097, 5000, 70000} bytes x EncryptionInfo {standard, agile, agile > 4096 bytes, absent} x DataSpaces storage present/absent x CFB layouts (v3/v4, 5 sector orders, mini order, unused entries, directory order, free sectors), opened with Xlsx and Xlsb from a reader positioned at the start, after the 8 magic bytes or at the end; BIFF: FILEPASS of 5 kinds (BIFF8 RC4, XOR obfuscation, CryptoAPI v2/v4; the 4-byte BIFF5 XOR form in a Book stream) directly after BOF or after WRITEPROTECT, record bodies garbled, mini stream or regular sectors, CFB layouts; ods: manifests with 3-5 entries and encryption-data on the first, a middle, the last, all or several entries, ciphertext content; converse: unencrypted workbooks of all four formats (xlsx under every encoding of C01, xls under CFB layouts with extra streams, names and strings that spell 'EncryptedPackage' / 'FILEPASS' / 'encryption-data') must open; full product for ods, <= 4 deviations (thorough: full product) for ooxml, biff and plain; non-trivial = non-default choice");
     rep.assume("ciphertext is pseudo-random bytes; EncryptedPackage starts with its 8-byte size prefix");
     let stats = Mutex::new(Stats::default());
     ["ooxml", "biff", "ods", "plain"].par_iter().for_each(|fam| {
@@ -194,7 +198,7 @@ pub fn check(rep: &Report) {
         let mut st = Stats::default();
         let mut local = vec![];
         if *fam == "ods" || t { explore_full(|ch| run_case(rep, ch, fam, &mut local), &mut st, 400_000); }
-        else { explore_deviations(|ch| run_case(rep, ch, fam, &mut local), 3, &mut st); }
+        else { explore_deviations(|ch| run_case(rep, ch, fam, &mut local), 4, &mut st); }
         rep.cases_bulk(&local);
         stats.lock().unwrap().merge(&st);
         crate::engine::crumb::clear();
